@@ -69,3 +69,35 @@ Definition close_run (o : corder) (pat : option nat) (sched : list nat) : cshare
   run _ _ (cstep o) (close_init o pat) sched.
 Definition closer_pc (s : cshared * list cthread) : option cpc :=
   match nth_error (snd s) 0 with Some (TCloser pc _) => Some pc | _ => None end.
+
+(* -------------------------------------------------------------------------------------------------
+   The half-close relay (internal/utils/iocopy/copy.go Bidirectional): each direction copies until its Read ends — with
+   io.EOF or with any other error — then half-closes the OTHER connection (tryCloseWrite), which is what tells that peer
+   that the stream is over while the opposite direction is still parked in its Read.  A listening peer closes its own side
+   only after it has seen that end of stream; Bidirectional returns when both directions are done.
+     policy HalfCloseAlways     = the code
+            HalfCloseOnEofOnly  = half-close only after a clean EOF (seeded change C02-9 / C12-8)
+   Thread 0 = direction A->B (n chunks, then its Read ends with `kind`), thread 1 = direction B->A whose peer only listens. *)
+Inductive endkind := EndEOF | EndErr.
+Inductive hcpolicy := HalfCloseAlways | HalfCloseOnEofOnly.
+Inductive hthread := HCopy (n : nat) (kind : endkind) | HHalfClose (kind : endkind) | HListen | HHalfCloseBack | HDone.
+Record hshared := { h_peerB_sees_end : bool; h_peerA_sees_end : bool }.
+
+Definition hstep (p : hcpolicy) (t : hthread) (sh : hshared) : hthread * hshared :=
+  match t with
+  | HCopy (S n) k => (HCopy n k, sh)
+  | HCopy O k => (HHalfClose k, sh)                         (* Read returned EOF / an error: the loop is left *)
+  | HHalfClose k =>
+      match p, k with
+      | HalfCloseOnEofOnly, EndErr => (HDone, sh)
+      | _, _ => (HDone, {| h_peerB_sees_end := true; h_peerA_sees_end := h_peerA_sees_end sh |})
+      end
+  | HListen => if h_peerB_sees_end sh then (HHalfCloseBack, sh) else (t, sh)     (* B's peer closes only after it saw the end *)
+  | HHalfCloseBack => (HDone, {| h_peerB_sees_end := h_peerB_sees_end sh; h_peerA_sees_end := true |})
+  | HDone => (t, sh)
+  end.
+
+Definition relay_run (p : hcpolicy) (n : nat) (k : endkind) (sched : list nat) : hshared * list hthread :=
+  run _ _ (hstep p) ({| h_peerB_sees_end := false; h_peerA_sees_end := false |}, [HCopy n k; HListen]) sched.
+Definition relay_returned (s : hshared * list hthread) : bool :=
+  match snd s with [HDone; HDone] => true | _ => false end.
